@@ -154,11 +154,12 @@ func init() {
 		{dir: "soyhtml", key: "directiveTruncate", cfg: &gtCfg{fuel: map[int]string{1: "maxLen + 2"}}},
 	})
 	// soymsg: tagName, the html placeholder name, hash32 with its block loop (fuel: one iteration per 12 bytes of
-	// limit-start, stated generously); lemmas in Proofs/MsgIdSourceTie.v (C10 C11)
+	// limit-start, stated generously); lemmas in Proofs/SourceTieMsgLoops.v (C10 C11)
 	// parse/quote.go unquoteString: the error result is "err != nil", utf8.DecodeRuneInString, strconv.ParseInt and
 	// string([]rune) are parameters; every iteration consumes at least one byte (fuel len(s)+1): C01 C05 C17
 	gtFamily("83-gotrans-quote", []gtItem{
 		{dir: "parse", key: "unquoteString", cfg: &gtCfg{fuel: map[int]string{1: "len(s) + 1"}}},
+		it("parse", "quoteString"),
 	})
 	gtFamily("82-gotrans-soymsg-loops", []gtItem{
 		it("soymsg", "tagName"),
